@@ -462,12 +462,12 @@ package encoder
 //@   loop 3: decreases len(s) - j
 
 // UTF-8 first-byte table: ASCII, invalid, or (accept-range index << 4 | sequence length)
-//@ tablelemma[C17,C03] first(j, v) := (j < 128 ==> v == 240) && (j >= 128 && j < 194 ==> v == 241) && (j >= 245 ==> v == 241) && (j >= 194 && j < 224 ==> v == 2) && (j == 224 ==> v == 19) && (j >= 225 && j < 237 ==> v == 3) && (j == 237 ==> v == 35) && (j >= 238 && j < 240 ==> v == 3) && (j == 240 ==> v == 52) && (j >= 241 && j < 244 ==> v == 4) && (j == 244 ==> v == 68)
+//@ tablelemma[C17,C03,C04] first(j, v) := (j < 128 ==> v == 240) && (j >= 128 && j < 194 ==> v == 241) && (j >= 245 ==> v == 241) && (j >= 194 && j < 224 ==> v == 2) && (j == 224 ==> v == 19) && (j >= 225 && j < 237 ==> v == 3) && (j == 237 ==> v == 35) && (j >= 238 && j < 240 ==> v == 3) && (j == 240 ==> v == 52) && (j >= 241 && j < 244 ==> v == 4) && (j == 244 ==> v == 68)
 //@ spec cont(c) := c >= 128 && c <= 191
 
 // states: 0 valid, 1 error, 2 U+2028, 3 U+2029
 //@ func decodeRuneInString(s) (state, size)
-//@   props C17 C03
+//@   props C17 C03 C04
 //@   requires len(s) >= 1
 //@   ensures 1 <= size && size <= len(s) && size <= 4 && 0 <= state && state <= 3
 //@   ensures state != 0 && state != 2 && state != 3 ==> size == 1
